@@ -36,7 +36,7 @@ def gen_case(rnd, cid):
         va, vb = progs.domain_values(rnd, op, bl, ka, kb)
         if op in ("lt", "le", "gt", "ge", "eq", "ne") and rnd.random() < 0.5:
             vb = va + rnd.choice([0, 0, 1, -1])          # boundary of the comparison
-        if op in ("lt", "le", "gt", "ge") and ka == "L" and rnd.random() < 0.12:
+        if op in ("lt", "le", "gt", "ge") and ka == "L" and kb in ("L", "I") and rnd.random() < 0.12:
             # user-selected ignore-errors mode with an operand far outside the bitlength: the honest witness does not satisfy the
             # system (by design), but a prover must still not be able to prove EITHER outcome
             cfg["ign"] = 1
